@@ -389,6 +389,9 @@ func runC16(r *Run, rng *rand.Rand, thorough bool) {
 			}
 			gt, _, _ := r.Do("commitments.ParseSecrets/"+cls, true, "parse_secrets", eInts(in))
 			r.Assert(!strings.HasPrefix(gt, "panic"), "commitments.ParseSecrets/"+cls, "parser-never-panics", func() string { return eInts(in) + " -> " + gt })
+			if f1.Sign() < 0 || f1.Cmp(big.NewInt(cmts.MaxPartSize)) > 0 {
+				r.Assert(strings.HasPrefix(gt, "err"), "commitments.ParseSecrets/oversized-length-refused", "parser-rejects-oversized-input-with-an-error", func() string { return eInts(in) + " -> " + gt })
+			}
 			for _, f2 := range forged {
 				in2 := append(append([]*big.Int{big.NewInt(1), big.NewInt(5)}, f2), tail...)
 				cls2 := "in-range"
@@ -397,6 +400,9 @@ func runC16(r *Run, rng *rand.Rand, thorough bool) {
 				}
 				gt2, _, _ := r.Do("commitments.ParseSecrets/"+cls2, true, "parse_secrets", eInts(in2))
 				r.Assert(!strings.HasPrefix(gt2, "panic"), "commitments.ParseSecrets/"+cls2, "parser-never-panics", func() string { return eInts(in2) + " -> " + gt2 })
+				if f2.Sign() < 0 || f2.Cmp(big.NewInt(cmts.MaxPartSize)) > 0 {
+					r.Assert(strings.HasPrefix(gt2, "err"), "commitments.ParseSecrets/oversized-length-refused", "parser-rejects-oversized-input-with-an-error", func() string { return eInts(in2) + " -> " + gt2 })
+				}
 			}
 		}
 	}
